@@ -2,7 +2,6 @@ package worlds
 
 import (
 	"context"
-	"errors"
 	"fmt"
 	"runtime"
 	"sync/atomic"
@@ -43,7 +42,8 @@ type ccScript struct {
 	Outcomes     []ccOutcome
 	Delays       []int // 0 none, 1 yield, 2 short sleep
 	Gate         bool  // hold the caller at CcallSpawned until all functions finished
-	CancelCaller int   // 0 never, 1 before the call, 2 during
+	CancelCaller int   // 0 never, 1 before the call, 2 during, 3 a deadline that has passed before the call, 4 a short timeout that expires during the call
+	WrapTokens   bool  // the functions' own errors wrap context.Canceled (they are still errors other than context.Canceled)
 }
 
 func (s ccScript) String() string {
@@ -51,7 +51,7 @@ func (s ccScript) String() string {
 	for i, o := range s.Outcomes {
 		out += fmt.Sprintf("%s/%d ", ccNames[o], s.Delays[i])
 	}
-	return fmt.Sprintf("[%s] gate=%v cancel=%d", out, s.Gate, s.CancelCaller)
+	return fmt.Sprintf("[%s] gate=%v cancel=%d wrap=%v", out, s.Gate, s.CancelCaller, s.WrapTokens)
 }
 
 func runC17(w *mon.Worker) {
@@ -103,8 +103,9 @@ func runC17(w *mon.Worker) {
 			sc.Delays = append(sc.Delays, r.IntN(3))
 		}
 		if r.IntN(5) == 0 {
-			sc.CancelCaller = 1 + r.IntN(2)
+			sc.CancelCaller = 1 + r.IntN(4)
 		}
+		sc.WrapTokens = r.IntN(3) == 0
 		if hasUncond || sc.CancelCaller != 0 {
 			// waiting functions only where something ends the call
 			for j := range sc.Outcomes {
@@ -156,6 +157,9 @@ func ccallCase(c *mon.Case, sc ccScript, sampled bool) {
 	for i := 0; i < n; i++ {
 		i := i
 		f := &ccFn{outcome: sc.Outcomes[i], token: fmt.Errorf("token-%d", i)}
+		if sc.WrapTokens {
+			f.token = fmt.Errorf("token-%d: %w", i, context.Canceled)
+		}
 		fns[i] = f
 		if f.outcome == ccNilEntry {
 			continue
@@ -197,9 +201,19 @@ func ccallCase(c *mon.Case, sc ccScript, sampled bool) {
 	ctx, cancel := context.WithCancel(context.Background())
 	defer cancel()
 	var cancelStamp atomic.Int64
-	if sc.CancelCaller == 1 {
+	switch sc.CancelCaller {
+	case 1:
 		cancelStamp.Store(c.Rec("caller", "cancel-before", nil))
 		cancel()
+	case 3:
+		var cancel2 context.CancelFunc
+		ctx, cancel2 = context.WithDeadline(ctx, time.Unix(1, 0))
+		defer cancel2()
+		cancelStamp.Store(c.Rec("caller", "deadline-passed-before", nil))
+	case 4:
+		var cancel2 context.CancelFunc
+		ctx, cancel2 = context.WithTimeout(ctx, time.Duration(200+c.Rng.IntN(1500))*time.Microsecond)
+		defer cancel2()
 	}
 
 	var gate *mon.Gate
@@ -312,6 +326,10 @@ func ccallCase(c *mon.Case, sc ccScript, sampled bool) {
 		}
 	}
 	callerCancelled := cancelStamp.Load() != 0 && cancelStamp.Load() < res.retStamp
+	if sc.CancelCaller == 4 && ctx.Err() != nil {
+		// the moment the timeout fired is not observable; this only permits a context.Canceled result
+		callerCancelled = true
+	}
 	if res.err == nil {
 		for i, f := range fns {
 			if f.outcome == ccNilEntry {
@@ -353,7 +371,7 @@ func ccallCase(c *mon.Case, sc ccScript, sampled bool) {
 		c.Violate("ccall", "ccall-foreign-error", "CallConcurrently %s returned %v, which no function had returned by then (caller cancelled: %v)", sc, res.err, callerCancelled)
 		return
 	}
-	if !callerCancelled && res.err == context.Canceled || errors.Is(res.err, context.Canceled) && !callerCancelled {
+	if !callerCancelled && res.err == context.Canceled {
 		// allowed only if no function returns a non-Canceled error unconditionally
 		for i, f := range fns {
 			if f.outcome == ccRetToken {
